@@ -1804,6 +1804,7 @@ impl Exec {
                 let (ra, rb, rc) = (self.env[a], self.env[b], self.env[c]);
                 let before = self.bdd().storage().real_size();
                 let r = catch_unwind(AssertUnwindSafe(|| self.bdd().ite_constant(ra, rb, rc)));
+                let mut wrong = false;
                 match r {
                     Ok(o) => {
                         if let (Some(t), Some(x), Some(y), Some(z)) = (tt, self.e(a), self.e(b), self.e(c)) {
@@ -1811,6 +1812,7 @@ impl Exec {
                             let want = if f == 0 { Some(false) } else if f == t.full() { Some(true) } else { None };
                             if o != want {
                                 self.fail(&["C12"], format!("ite_constant = {:?}, but the ITE table is {:#x}", o, f));
+                                wrong = true;
                             }
                             self.nontrivial.insert(fnv1a(&format!("itec {:x} {:x} {:x}", x, y, z)));
                         }
@@ -1822,6 +1824,7 @@ impl Exec {
                                     if let Ok(Some(v)) = self.spec_at(&Spec::Ite(ra, rb, rc), e) {
                                         if v != b {
                                             self.fail(&["C12"], format!("ite_constant = Some({}), but the ITE is {} under the assignment {:#x}", b, v, e));
+                                            wrong = true;
                                             break;
                                         }
                                     }
@@ -1830,6 +1833,21 @@ impl Exec {
                         }
                         if self.bdd().storage().real_size() != before {
                             self.fail(&["C12", "C16"], "ite_constant created nodes".into());
+                        }
+                        // a wrong answer with a warm cache: is it the memo?  Flush (a collection that keeps every
+                        // live name is the public flush) and ask again — a different answer means the result
+                        // depended on the cache state (C07).  Only on this failure path: the run has already failed.
+                        if wrong && self.bdd().cache().entries().count() > 0 {
+                            let roots: Vec<Ref> = (0..self.env.len()).filter(|&i| self.live[i] && self.env[i].index() != 0).map(|i| self.env[i]).collect();
+                            let again = catch_unwind(AssertUnwindSafe(|| {
+                                self.bdd().collect_garbage(&roots);
+                                self.bdd().ite_constant(ra, rb, rc)
+                            }));
+                            if let Ok(o2) = again {
+                                if o2 != o {
+                                    self.fail(&["C07"], format!("ite_constant answered {:?} with a warm cache and {:?} after the caches were flushed", o, o2));
+                                }
+                            }
                         }
                         match o {
                             Some(true) => "some1".into(),
